@@ -157,8 +157,6 @@ def run(ctx, obl):
             # no MarshalJSON/UnmarshalJSON generated: decoding into a fresh value is encoding/json's own business
             # (it allocates embedded pointers, or refuses for unexported embedded types)
             impl[c["id"]]["umnil"] = "std"
-            if m["region"] == "F_jsonNilEmbed":
-                m["region"] = "WF"
         for side in ("model", "spec"):
             d = m[side]
             d["exit"] = "0"
